@@ -294,3 +294,34 @@ def evaluate(text, binds, ctx, engine=None, extra=None):
     for k, v in (extra or {}).items():
         c['$' + k] = v
     return engine(text).evaluate(context=c)
+
+
+def wrapped_context(on_enter, on_return=None, delegates=True):
+    """Child of the standard context holding, under the *real* names, a
+    clone of every definition whose payload reports to on_enter(def, args,
+    kwargs) / on_return(def, result).  The child layer shadows the library
+    layers (same signatures, nearer layer wins), so every call made by an
+    expression - including delegates such as 'str' or '#operator_<' - goes
+    through the wrappers."""
+    ctx = common.std_context(delegates=delegates)
+    defs = definitions(delegates)
+    nlayers = max(d.layer for d in defs) + 1
+    # mirror the library's layering: farthest layer first
+    for layer in reversed(range(nlayers)):
+        ctx = ctx.create_child_context()
+        for d in defs:
+            if d.layer != layer:
+                continue
+            fd = d.fd.clone()
+
+            def mk(d, payload):
+                def wrapper(*a, **kw):
+                    on_enter(d, a, kw)
+                    r = payload(*a, **kw)
+                    if on_return is not None:
+                        on_return(d, r)
+                    return r
+                return wrapper
+            fd.payload = mk(d, d.fd.payload)
+            ctx.register_function(fd)
+    return ctx
